@@ -206,7 +206,9 @@ def run(ctx):
         if v.get("key") in seen_keys:
             continue
         seen_keys.add(v.get("key"))
-        C.report_violation(ctx, v["what"], dict(case=v["case"], detail=v.get("detail")), key=v.get("key"),
+        stale = sorted({a for u in units if u.name == v["case"].get("scenario") for a, _ in u.stale})
+        C.report_violation(ctx, v["what"], dict(case=v["case"], detail=v.get("detail"),
+                                                static_stale_state_reads_in_fit=stale), key=v.get("key"),
                            found_input=True)
     for txt in broken:
         C.report_violation(ctx, "C09 case file did not evaluate", dict(coq_output=txt), found_input=False)
